@@ -407,3 +407,128 @@ def replay_C06(scripts):
 
 
 REPLAY = {"C06": replay_C06, "C03": replay_C03, "C02": replay_C02, "C11": replay_C11, "C12": replay_C12, "C05": replay_C05, "C04": replay_C04, "C08": replay_C08, "C01": replay_C01, "C07": replay_C07}
+
+def pair_stage(scripts, tag, fresh_every):
+    """qv pair in shards (+ two separate qv processes for the fresh-process variant); returns
+    list of (zipped file, first run, n)."""
+    d = V.workdir("pair_" + tag)
+    shards = max(1, min(V.NPROC, len(scripts)))
+    per = (len(scripts) + shards - 1) // shards
+    jobs = []
+    for k in range(shards):
+        chunk = scripts[k * per:(k + 1) * per]
+        if not chunk:
+            continue
+        sf = os.path.join(d, "scripts_%02d.ndjson" % k)
+        with open(sf, "w") as f:
+            for s in chunk:
+                f.write(json.dumps(s, separators=(",", ":")) + "\n")
+        jobs.append((k, sf, k * per, len(chunk)))
+
+    def one(job):
+        k, sf, first, n = job
+        out = os.path.join(d, "pair_%02d.ndjson" % k)
+        rc, o = V.sh([V.QV, "pair", sf, out, "--first-run", str(first)], 3000, check=False)
+        if rc != 0:
+            raise V.ToolError("qv pair failed on shard %d (rc=%d): %s" % (k, rc, o[-2000:]))
+        files = [(out, first, n)]
+        if fresh_every and k % fresh_every == 0:
+            # the same scripts in two separate processes (fresh hash seeds, fresh allocator state)
+            outs = []
+            for rep in ("a", "b"):
+                od = os.path.join(d, "fresh_%02d_%s" % (k, rep))
+                rc, o = V.sh([V.QV, "run", sf, od, "--proj", "master", "--probe", "0", "--first-run", str(first)],
+                             3000, check=False)
+                if rc != 0:
+                    raise V.ToolError("qv run failed on shard %d (rc=%d): %s" % (k, rc, o[-2000:]))
+                outs.append(os.path.join(od, "master.ndjson"))
+            z = os.path.join(d, "fresh_%02d.ndjson" % k)
+            V.sh([V.QV, "zip", outs[0], outs[1], z], 600)
+            for od in outs:
+                import shutil
+                shutil.rmtree(os.path.dirname(od), ignore_errors=True)
+            files.append((z, first, n))
+        return files
+
+    from concurrent.futures import ThreadPoolExecutor
+    import time
+    t = time.time()
+    with ThreadPoolExecutor(max_workers=V.NPROC) as ex:
+        res = [f for fs in ex.map(one, jobs) for f in fs]
+    V.log("[pair] %d scripts twice in %d shards, %d zipped files, %.1fs" % (len(scripts), len(jobs), len(res), time.time() - t))
+    return d, res
+
+
+def check_C20(tier, seed):
+    r = random.Random(seed * 7919 + 20)
+    quick = tier == "quick"
+    mc_res = [V.mc("Driver.tla", "MC_Driver.cfg", "C20")]
+    vecs, gst = V.gen("SeqGen.tla", "SeqGen_fates6.cfg" if quick else "SeqGen_fates8.cfg", "C20")
+    n_vec = 500 if quick else 12000
+    n_rand = 460 if quick else 12000
+    scripts = [scen.determinism_script(r, i, fate_vec=v) for i, v in enumerate(sample(vecs, n_vec, r))]
+    scripts += [scen.determinism_script(r, len(scripts) + i) for i in range(n_rand)]
+    d, files = pair_stage(scripts, "C20", fresh_every=4 if quick else 2)
+
+    def one(i):
+        return V.validate("PairTrace.tla", "PairTrace.cfg", files[i][0], "C20_%02d" % i)
+
+    from concurrent.futures import ThreadPoolExecutor
+    with ThreadPoolExecutor(max_workers=8) as ex:
+        res = list(ex.map(one, range(len(files))))
+    viol, known = collect(res, scripts, None)
+    evhist, lines, vstates, outs = {}, 0, 0, 0
+    variants = {}
+    for (f, first, n), rr in zip(files, res):
+        lines += rr["lines"]
+        vstates += rr["states"]
+        for k, c in rr["hist"].items():
+            evhist[k] = evhist.get(k, 0) + c
+        var = "fresh" if os.path.basename(f).startswith("fresh") else "pair"
+        variants[var] = variants.get(var, 0) + n
+    byvar = {}
+    for s in scripts:
+        byvar[s["tag"]["variant"]] = byvar.get(s["tag"]["variant"], 0) + 1
+    cov = {
+        "states": sum(x["distinct"] for x in mc_res), "transitions": sum(x["generated"] for x in mc_res),
+        "traces_validated_against_impl": len(scripts), "trace_lines_validated": lines,
+        "trace_states_checked": vstates, "trace_event_counts": evhist,
+        "pairs_by_variant": dict(byvar, fresh_process=variants.get("fresh", 0)),
+        "outputs_compared": evhist.get("Out", 0),
+        "samples": [scripts[i] for i in range(0, len(scripts), max(1, len(scripts) // 3))][:3],
+        "model_checking": mc_res, "mc_actions_never_taken": [a for x in mc_res for a in x["never_taken"]],
+        "fate_vectors_enumerated_by_tlc": len(vecs), "generator_states": gst,
+        "evaluations": len(scripts) + variants.get("fresh", 0),
+        "distinct_nontrivial": len({json.dumps(s["steps"], sort_keys=True) + json.dumps(s["cfg"], sort_keys=True) for s in scripts}),
+        "rule": "one evaluation = one script executed twice against the real quinn-proto (second run: same / all instants shifted / extra polls / fresh process) with every output pair compared by TLC",
+        "exhaustive": False,
+    }
+    if not os.environ.get("VERIF_KEEP"):
+        import shutil
+        shutil.rmtree(d, ignore_errors=True)
+    return {"violations": viol, "known": known, "coverage": cov, "level": "model_checking",
+            "assumptions": ["deterministic plug-ins: harness ConnectionIdGenerator, toy crypto, fixed token/reset keys (the built-in CID generators draw from the thread RNG by design)",
+                            "outputs are compared as (kind, instant relative to the run's base, 31-bit FNV digest of the canonical rendering): Transmit contents decoded by the independent decoder, application events, endpoint events, call results, timer values",
+                            "the shift variant moves the base Instant by up to 4e9 s; wall-clock (SystemTime) inputs are supplied by the harness TimeSource and not shifted"]}
+
+
+def replay_C20(scripts):
+    d, files = pair_stage(scripts, "C20r", fresh_every=1)
+    res = [V.validate("PairTrace.tla", "PairTrace.cfg", f, "C20r_%d" % i) for i, (f, _, _) in enumerate(files)]
+    viol, known = collect(res, scripts, None)
+    return {"violations": viol, "known": known}
+
+
+REGISTRY["C20"] = check_C20
+REPLAY["C20"] = replay_C20
+
+# checks living in their own modules (own harness crates)
+from props_c19 import check_C19, replay_C19  # noqa: E402
+REGISTRY["C19"] = check_C19
+REPLAY["C19"] = replay_C19
+from props_c18 import check_C18, replay_C18  # noqa: E402
+REGISTRY["C18"] = check_C18
+REPLAY["C18"] = replay_C18
+from props_c10 import check_C10, replay_C10  # noqa: E402
+REGISTRY["C10"] = check_C10
+REPLAY["C10"] = replay_C10
